@@ -23,7 +23,7 @@ CLAIMED = {
          "Exploration: tens of thousands of definitions per run, every documented defect class and pairs of them (found F17, F18)."),
  'C11': ("twin definition: printed description vs read_grammar of the denoted grammar, compared on definition result and parse outcomes; mutated texts must fail cleanly with a line number inside the text", "6.C11",
          "Exploration over lexical variation of the documented syntax (found F05, F06, F07, F08, F10)."),
- 'C12': ("coverage-guided fuzzing (two libFuzzer targets with semantic oracles inside, ASan+UBSan, seed corpus from the repository's test descriptions and empty corpus) plus a rapidcheck robustness property on noisy inputs; hook H3 bounds the recovery search", "6.C12",
+ 'C12': ("coverage-guided fuzzing (two libFuzzer targets with semantic oracles inside, ASan+UBSan, seed corpus from the repository's test descriptions and empty corpus) plus a rapidcheck robustness property on noisy inputs and on grammars of hundreds of symbols, plus a memcheck tier (the generators of six properties under valgrind against a build without sanitizers: uses of uninitialised values); hooks H3/H5 bound the recovery search and the number of alternative nodes", "6.C12",
          "Exploration: ~10^5-10^6 executions per quick run (found F04, F05, F06, F22b, F27, F28, F39). The unbounded recovery search is a listed finding; bounded time is decided only as 'no reproducible hang or explosion within generous limits on small inputs'."),
  'C13': ("tracking tree allocator as model of the caller's heap: per-parse live-block sets, reachability walk, re-walk after yaep_free_grammar, yaep_free_tree accounting, terminal-callback count, library leak accounting through the redirected malloc", "6.C13",
          "Exploration with 1-3 live trees per object, cost pruning, recovery, three allocator modes (found F15, F25, F29)."),
@@ -37,7 +37,7 @@ CLAIMED = {
          "Exploration on random grammars with short inputs (all 6 lookahead values x 9 debug levels) and inputs of up to 150/400 tokens made of repeated fragments (found F10, F28). The ANSI C grammar is covered by the thorough tier only if the tokenised fixture could be built."),
  'C17': ("fault injection with exhaustive enumeration of the failing allocation request per scenario (library malloc/calloc/realloc redirected by objcopy to failing wrappers), each k in a fresh child under ASan/UBSan with poisoned fresh memory", "6.C17",
          "Fault enumeration: every k in 1..K for generated scenarios (create / define by callbacks or text / one or two parses, three tree-allocator modes). Found F23, F36, F37, F38. One failure per run, as the property states."),
- 'C18': ("metamorphic / scaling test on generated inputs of deterministic grammar families: machine-independent work units (allocator bytes via redirected malloc, the library's hash-table search and collision counters, distinct sets and set cores via hook H4) for n and 2n", "6.C18",
+ 'C18': ("metamorphic / scaling test on generated inputs of deterministic grammar families: machine-independent work units (allocator bytes via redirected malloc, the library's hash-table search and collision counters, distinct sets and set cores via hook H4) for n and 2n; families: lists, expressions, statements, precedence chains, the ANSI C grammar of test41 on the tokens of test/test.i", "6.C18",
          "Exploration: empirical growth ratios with calibrated head-room on three grammar families and three lookahead levels, n up to 32k quick / 256k thorough; no complexity proof. The ANSI C family is not included (see DESIGN)."),
  'C19': ("model-based testing of operation sequences against std::set / byte-vector models, invariants checked after every operation, C containers through a C shim and C++ classes directly, ASan", "6.C19",
          "Exploration with sizes around the segment and growth thresholds; all six containers equally (found F24b; F24 through C16)."),
